@@ -10,7 +10,7 @@ def model_case(case):
     case = re.sub(r'pgl (\d+) (\d+)', r'ren \1 \2 ; rex \1 \2 ; dr \1 \2', case)
     return re.sub(r'pg (\d+) (\d+)', r'en \1 \2 ; ex \1 \2', case)
 
-def gen_history(rng, nops, nthreads=None, f2=False, reentry=0.05, unwind=True, traces=False):
+def gen_history(rng, nops, nthreads=None, f2=False, reentry=0.05, unwind=True, traces=False, deep=False):
     nthreads = nthreads or rng.choice([1, 1, 2, 3])
     ops = []
     handles = {}          # span -> handles held by the program (not counting guards)
@@ -24,7 +24,12 @@ def gen_history(rng, nops, nthreads=None, f2=False, reentry=0.05, unwind=True, t
         t = rng.randrange(nthreads)
         # (handles in the program's pool: a captured SpanTrace holds one of its own, which nothing else can use)
         live = [j for j, h in handles.items() if h - sum(1 for v in held_traces.values() if v == j) > 0]
-        if r < 0.22 and nspans < 14:
+        if deep and nspans < 30 and entered[t] and dflt[t] == 'own' and rng.random() < 0.5:
+            # a deep chain: a contextual child of the current span, entered at once (ancestor chains longer than 16)
+            ops.append('ns %d %d c' % (t, nspans)); handles[nspans] = 1
+            ops.append('en %d %d' % (t, nspans)); entered[t].append(nspans); guards[(t, nspans)] = guards.get((t, nspans), 0) + 1
+            nspans += 1
+        elif r < 0.22 and nspans < (30 if deep else 14):
             if dflt[t] != 'own':
                 continue
             k = rng.random()
